@@ -53,6 +53,11 @@ def plan(tier):
         for level, names in (("1.1", [("HH", "F1"), ("HH", "F2"), ("HH", "F3"), ("HV", "F1")]), ("1.5", [("HH", None), ("HV", None), ("VH", None), ("VV", None)]), ("1.1", [("HH", None), ("HV", None)])):
             cases.append({"spec": {"level": level, "images": [[pol, scan, 3, 2] for pol, scan in names], "line_mode": mode}, "label": f"{level} {len(names)} images, per-line values {mode}"})
             cases.append({"spec": {"level": level, "images": [[pol, scan, 3, 2] for pol, scan in names[::-1]], "line_mode": mode}, "label": f"{level} {len(names)} images reversed, per-line values {mode}"})
+    # images of equal geometry whose file descriptors are identical field by field (the polarisations of one scene), while
+    # their per-line values differ: every group still shows its own file's lines
+    for level, names in (("1.1", [("HH", None), ("HV", None)]), ("1.5", [("HH", None), ("HV", None), ("VH", None), ("VV", None)]), ("1.1", [("HH", "F1"), ("HV", "F1"), ("HH", "F2")])):
+        for mode in ("distinct", "near", "steps"):
+            cases.append({"spec": {"level": level, "images": [[pol, scan, 4, 3] for pol, scan in names], "line_mode": mode, "twin_headers": True}, "label": f"{level} {len(names)} images with identical file descriptors, per-line values {mode}"})
     # section orders through open_alos2
     spec = treecheck.spec_from_case({"spec": {"level": "1.5", "images": images_for([("HH", None), ("HV", None)])}})
     lines = synth.summary_lines(spec)
